@@ -9,8 +9,10 @@ arguments as parameters, expansion ends):
 * no label is defined twice (`firstDuplicate … = none`);
 * every label and expression macro an operand mentions is defined
   (`mentioned` succeeds and nothing is `missing`);
-* under the final layout every operand evaluates — expression macros get at
-  least as many arguments as parameters (else `undefinedVariable`), no division
+* under the final layout every operand evaluates — every parameter an expression
+  macro's body READS has an argument (else `undefinedVariable`; a missing argument
+  for a parameter that is never read is accepted, against the property's "at least
+  as many arguments": finding D28, `C13_missing_argument_counterexample`), no division
   by zero — to a value that fits its push (`finish` succeeds).
 `C13_iff` (T-asm): the implementation model — feeding items one at a time with
 provisional label positions, the undeclared-label set, feed-time and
@@ -149,7 +151,8 @@ theorem C13_error_undeclared_expression_macro (rnd : Nat → Nat) (fuel k : Nat)
   undeclaredExpressionMacro_provenance rnd fuel k ops n h
 
 /-- `MacroArgumentCount n`: `n` is an INSTRUCTION macro declared in the scope that reports it (expression macros never
-yield this error: too few arguments surface as `UndeclaredVariableMacro`, surplus ones are ignored) -/
+yield this error: too few arguments surface as `UndeclaredVariableMacro` when the missing parameter is read — and not at
+all when it is not: finding D28 —, surplus ones are ignored) -/
 theorem C13_error_argument_count (rnd : Nat → Nat) (fuel k : Nat) (ops : RawOps) (n : String)
     (h : assemble rnd fuel { fresh := k } ops = .error (.macroArgumentCount n)) :
     ∃ (sub : RawOps) (ms : List (String × MacroDef)) (ps : List String) (body : List AOp),
@@ -164,5 +167,21 @@ theorem C13_error_recursion_limit (rnd : Nat → Nat) (fuel k : Nat) (ops : RawO
     ∃ (sub : RawOps) (ms : List (String × MacroDef)) (d : MacroDef),
       SubScope sub ops ∧ declareMacros sub.toList [] = .ok ms ∧ lookupMacro ms n = some d :=
   macroRecursionLimit_provenance rnd fuel k ops n h
+
+/-! ### Finding D28: too few arguments for an expression macro are accepted when the missing parameter is never read
+
+The property counts an expression-macro invocation with fewer arguments than parameters as ill formed.  etk binds the
+parameters to the arguments pairwise (`zip`) and only notices a missing one when the body reads it
+(`UndeclaredVariableMacro`).  The model follows the code: `%def f(x, y) $x %end; push1 f(1)` assembles to `60 01`. -/
+
+def d28Program : RawOps := RawOps.ofList
+  [.op (.exprDef "f" ["x", "y"] (.var "x")), .op (.op 0x60 (some (.macro "f" (.cons (.num 1) .nil))))]
+
+def assemblesTo (r : Except AsmErr (List Nat × Nat)) (bs : List Nat) : Bool :=
+  match r with | .ok (b, _) => b == bs | .error _ => false
+
+/-- the model (like the real assembler: corpus/C13/d28-missing-unused-argument.json) accepts the ill-formed program -/
+theorem C13_missing_argument_counterexample :
+    assemblesTo (assemble (fun k => k) 50 { fresh := 0 } d28Program) [0x60, 1] = true := by decide +kernel
 
 end EtkVerif.C13
